@@ -5,10 +5,14 @@ P=$(python3 -c "import json;print(json.load(open('$D/meta.json'))['property'])")
 PROPS=${@:-$P C10}
 cd /verif
 [ -z "$(git -C /repo status --porcelain)" ] || { echo "/repo not clean"; exit 9; }
+cp -r evidence /tmp/evidence.keep.$$; cp -r replays /tmp/replays.keep.$$
 git -C /repo apply /verif/$D/patch.diff || exit 9
 for p in $PROPS; do
   out=$(./check $p --tier quick 2>&1); rc=$?
   echo "--- $p rc=$rc"; echo "$out" | grep -E "VIOLATION|UNDECIDED|KNOWN|OK " | cut -c1-400
 done
 git -C /repo checkout -- .
+# evidence and replay files written while a seed was applied do not describe the real tree: restore the previous ones
+mkdir -p seeded-runs/$(basename $D); cp -f replays/*.json seeded-runs/$(basename $D)/ 2>/dev/null
+rm -rf evidence replays; mv /tmp/evidence.keep.$$ evidence; mv /tmp/replays.keep.$$ replays
 git -C /repo status --porcelain | head -3
